@@ -22,8 +22,10 @@ RULE = ("One real responder (single- or multi-socket, IPv4 or dual stack) with 1
         "destination, sending socket, id/question echo, flush bits, header of every multicast response. Non-trivial = at "
         "least two queries were answered, one of them with a QU question or from a legacy port.")
 ASSUMPTIONS = [
-    "the responder's notion of 'last multicast' is its own cache entry for the record (own transmissions loop back); the "
-    "reference cache of the responder is fed with exactly the datagrams delivered to it",
+    "'seen multicast' is first judged from a log of the multicast responses that reached the responder's sockets (own "
+    "transmissions loop back), with the quarter taken of the record's own TTL; where the library's notion - its cache "
+    "entry for the record, fed with exactly the datagrams it accepted - leads to other expectations and the library "
+    "follows those, the deviation is reported as the known sighting-proxy finding with its cause",
     "aggregated / one-second-protected multicast answers are C12's subject: here only the immediate classes are required",
 ]
 
@@ -115,6 +117,8 @@ def execute(scenario, seed, overrides=None):
         reg = ModelRegistry()
         hm = {}
         expect = []
+        sight = {}  # scope-blind identity -> time (ms) of the last multicast sighting at the responder
+        flush_marks = {}
 
         def on_rx(t, rsock, data, addr, tx_idx, copy):
             if rsock.owner.name != "R":
@@ -127,7 +131,18 @@ def execute(scenario, seed, overrides=None):
                 if e["op"] == "register" and e["t_done"] is not None and e["exc"] is None and not e.get("_c11"):
                     e["_c11"] = True
                     reg.register(e["svc"])
+            # the statement's own notion of "seen multicast": every multicast response that reached one of the
+            # responder's sockets (its own looped-back ones included), whatever the duplicate guard or the cache made of it
+            if w.net.trace[tx_idx].multicast and len(data) <= wire.MAX_ABS:
+                m2 = wire.try_decode(data)
+                if m2 is not None and m2.is_response:
+                    for r2 in m2.records():
+                        if r2.ttl > 0:
+                            sight[r2.ident()] = t * 1000.0
             msg, eff = m.on_rx(t, rsock.label, data, v6sock=rsock.family == AF_INET6, src=addr)
+            if eff is not None:
+                for i2 in eff.flushed:
+                    flush_marks[i2] = t * 1000.0
             if msg is None or msg.is_response or addr[0].replace("::ffff:", "") in ("10.0.0.1", "fe80::1"):
                 return
             if msg.tc:
@@ -137,55 +152,58 @@ def execute(scenario, seed, overrides=None):
             legacy = src[1] != 5353
             probe = bool(msg.authorities)
             known = {} if probe else {r.ident(): r.ttl for r in msg.answers}
-            U, M, N = {}, {}, {}  # unicast, immediate multicast, must-not-be-immediate-multicast (unicast only)
-
-            def st(r):
+            def st_cache(r):
+                # the library's notion: its cache entry for the record
                 e = m.cache.e.get(r.ident())
                 recent = e is not None and e.recent(t_ms)
                 last_sec = e is not None and t_ms - e.created < 1000.0
                 return recent, last_sec
 
+            def st_seen(r):
+                # the statement's notion: the last multicast sighting, a quarter of the record's own TTL
+                last = sight.get(r.ident())
+                return (last is not None and t_ms - last < 250.0 * r.ttl), (last is not None and t_ms - last < 1000.0)
+
+            def why(r):
+                e = m.cache.e.get(r.ident())
+                last = sight.get(r.ident())
+                if r.type == wire.T_AAAA and rsock.family == AF_INET6 or (e is None and r.type == wire.T_AAAA and last is not None
+                                                                         and any(s_.family == AF_INET6 for s_ in w.net.sockets if s_.owner.name == "R")):
+                    return "aaaa-scope"
+                if e is None:
+                    return "sighting-erased" if last is not None else "none"
+                if last is None or e.created > last + 0.5:
+                    return "flush-mark" if flush_marks.get(r.ident()) == e.created else "unicast-sighting"
+                if e.created < last - 0.5:
+                    return "sighting-swallowed-by-duplicate-guard"
+                if e.ttl != r.ttl:
+                    return "cached-ttl-differs"
+                return "boundary"
+
+            causes = set()
             allq = msg.questions
-            for q in allq:
-                req, opt = reg.answers(q)
-                ans = []
-                for r in req + opt:
-                    kt = known.get(r.ident())
-                    if kt is not None and kt > r.ttl / 2:
-                        continue
-                    ans.append(r)
-                for r in ans:
-                    recent, last_sec = st(r)
-                    key = r.ident()
-                    if not legacy and q.qu:
-                        if probe:
-                            U[key] = r
-                            if not recent:
-                                M[key] = r
-                        elif recent:
-                            U[key] = r
-                            N[key] = r
-                        else:
-                            M[key] = r
-                        continue
-                    if legacy:
-                        U[key] = r
-                    if probe:
-                        M[key] = r
-                    elif last_sec:
-                        pass
-                    elif len(allq) == 1 and q.type in (wire.T_SRV, wire.T_A, wire.T_AAAA, wire.T_NSEC):
-                        M[key] = r
-            for k in list(N):
-                if k in M:
-                    del N[k]
+            UMN = []
+            for st in (st_seen, st_cache):
+                U, M, N = {}, {}, {}  # unicast, immediate multicast, must-not-be-immediate-multicast (unicast only)
+                _classify(reg, allq, known, legacy, probe, st, U, M, N)
+                UMN.append((U, M, N))
+            (U, M, N), alt = UMN
+            if [sorted(map(repr, x)) for x in UMN[0]] == [sorted(map(repr, x)) for x in alt]:
+                alt = None
+            else:
+                for q in allq:
+                    a_, b_ = reg.answers(q)
+                    for r in a_ + b_:
+                        if st_seen(r) != st_cache(r):
+                            causes.add(why(r))
             stats["queries"] += 1
             stats["legacy"] += int(legacy)
             stats["probes"] += int(probe)
             stats["v6_queries"] += int(":" in src[0])
             stats["unicast_dst_queries"] += int(not rsock.joined or rsock.bind_ip != "")
             expect.append({"t": t, "src": src, "sock": rsock.label, "U": U, "M": M, "N": N, "legacy": legacy,
-                           "probe": probe, "id": msg.id, "q": msg.questions, "opt_nsec": True})
+                           "probe": probe, "id": msg.id, "q": msg.questions, "opt_nsec": True, "alt": alt,
+                           "causes": sorted(causes)})
 
         w.net.on_rx = on_rx
         orig_host = drv.op_host
@@ -218,6 +236,42 @@ def execute(scenario, seed, overrides=None):
     return out
 
 
+def _classify(reg, allq, known, legacy, probe, st, U, M, N):
+    for q in allq:
+        req, opt = reg.answers(q)
+        ans = []
+        for r in req + opt:
+            kt = known.get(r.ident())
+            if kt is not None and kt > r.ttl / 2:
+                continue
+            ans.append(r)
+        for r in ans:
+            recent, last_sec = st(r)
+            key = r.ident()
+            if not legacy and q.qu:
+                if probe:
+                    U[key] = r
+                    if not recent:
+                        M[key] = r
+                elif recent:
+                    U[key] = r
+                    N[key] = r
+                else:
+                    M[key] = r
+                continue
+            if legacy:
+                U[key] = r
+            if probe:
+                M[key] = r
+            elif last_sec:
+                pass
+            elif len(allq) == 1 and q.type in (wire.T_SRV, wire.T_A, wire.T_AAAA, wire.T_NSEC):
+                M[key] = r
+    for k in list(N):
+        if k in M:
+            del N[k]
+
+
 def _key(r):
     return nsec_key(r)[:2] if r.type == wire.T_NSEC else r.ident()
 
@@ -248,71 +302,106 @@ def _oracle(w, expect, stats, out):
                 if r.flush != want:
                     out.add("C11.flush-bit", f"multicast response at {tx.t - t0:.6f}: {r!r} has flush={r.flush}")
                     break
-    # ---- per query
+    # ---- per query: first against the statement's notion of "seen multicast"; where the library's notion (its cache
+    # entry) leads to other expectations and the library follows those, that is the known sighting-proxy finding
     for ex in expect:
-        t = ex["t"]
-        txs = by_t.get(t, [])
-        uni = [tx for tx in txs if not tx.multicast and tx.msg is not None and tx.msg.is_response and tx.dst == ex["src"]]
-        # several legacy queries of one client delivered in the same instant: their replies echo the id, attribute by it
-        same = [e2 for e2 in expect if e2["t"] == t and e2["src"] == ex["src"] and e2["legacy"] and e2["id"] != ex["id"]]
-        if ex["legacy"] and same and any(tx.msg.id == ex["id"] for tx in uni):
-            uni = [tx for tx in uni if tx.msg.id == ex["id"]]
-        elif ex["legacy"] and same:
-            uni = [tx for tx in uni if tx.msg.id not in {e2["id"] for e2 in same}]
-        mc = [tx for tx in txs if tx.multicast and tx.msg is not None and tx.msg.is_response]
-        U, M, N = ex["U"], ex["M"], ex["N"]
-        qd = f"query id={ex['id']} {ex['q']} from {ex['src']} at {t - t0:.6f} ({'probe' if ex['probe'] else 'query'})"
-        got_u = {}
-        for tx in uni:
-            for r in tx.msg.answers:
-                got_u[_key(r)] = r
-        wantU = {_key(r): r for r in U.values()}
-        # replies to port-5353 queries carry id 0: when one source has several queries delivered in the same instant the
-        # unicast replies are judged against all of them together
-        for e2 in expect:
-            if e2 is not ex and e2["t"] == t and e2["src"] == ex["src"] and not e2["legacy"] and not ex["legacy"]:
-                wantU.update({_key(r): r for r in e2["U"].values()})
-        optional = {k for k, r in wantU.items() if r.type == wire.T_NSEC}
-        if wantU or got_u:
-            stats["answered"] += 1
-        missing = [r for k, r in wantU.items() if k not in got_u and k not in optional]
-        extra = [r for k, r in got_u.items() if k not in wantU]
-        if missing:
-            out.add("C11.unicast-missing", f"{qd}: expected unicast reply with {missing[:3]}; unicast sent: "
-                    f"{[(tx.dst, tx.msg.answers[:3]) for tx in uni]}", legacy=ex["legacy"], probe=ex["probe"])
-        if extra:
-            out.add("C11.unicast-extra", f"{qd}: unicast reply contains {extra[:3]} which should not go by unicast "
-                    f"(multicast-now set {list(M.values())[:3]})", legacy=ex["legacy"], probe=ex["probe"])
-        for tx in uni:
-            if tx.sock != ex["sock"]:
-                out.add("C11.unicast-wrong-socket", f"{qd}: received on {ex['sock']} but unicast reply sent from {tx.sock}")
-            if any(r.flush for r in tx.msg.records()):
-                out.add("C11.unicast-flush-bit", f"{qd}: unicast reply carries a cache-flush bit")
-            if ex["legacy"]:
-                if tx.msg.id != ex["id"]:
-                    out.add("C11.legacy-id", f"{qd}: legacy unicast reply has id {tx.msg.id}")
-                if [q.key() for q in tx.msg.questions] != [q.key() for q in ex["q"]]:
-                    out.add("C11.legacy-questions", f"{qd}: legacy unicast reply echoes {tx.msg.questions}")
-            if (tx.msg.flags & 0x8400) != 0x8400:
-                out.add("C11.unicast-flags", f"{qd}: unicast reply flags {tx.msg.flags:#06x}")
-        got_m = {}
-        for tx in mc:
-            for r in tx.msg.answers:
-                got_m[_key(r)] = r
-        wantM = {_key(r): r for r in M.values() if r.type != wire.T_NSEC}
-        miss_m = [r for k, r in wantM.items() if k not in got_m]
-        if miss_m:
-            out.add("C11.multicast-now-missing", f"{qd}: expected immediate multicast of {miss_m[:3]}; multicast at that "
-                    f"instant: {[tx.msg.answers[:3] for tx in mc]}", legacy=ex["legacy"], probe=ex["probe"])
-            stats["qu_multicast_instead"] += 0
-        if M and not ex["legacy"] and any(q.qu for q in ex["q"]):
-            stats["qu_multicast_instead"] += 1
-        if N:
-            stats["qu_unicast_only"] += 1
-            leaked = [r for k, r in ((_key(r), r) for r in N.values()) if k in got_m and r.type != wire.T_NSEC]
-            if leaked and not _pending_before(expect, ex, leaked):
-                out.add("C11.qu-recent-multicast", f"{qd}: {leaked[:2]} was multicast within a quarter of its TTL and the "
-                        "question was QU, yet it was multicast again at once")
+        first = _Sink()
+        _judge(w, expect, ex, by_t, stats, first, False)
+        if not first.items:
+            continue
+        if ex.get("alt") is not None:
+            second = _Sink()
+            _judge(w, expect, ex, by_t, stats, second, True)
+            if not second.items:
+                stats["sighting_proxy_followed"] = stats.get("sighting_proxy_followed", 0) + 1
+                for cause in ex["causes"] or ["unclassified"]:
+                    out.add("C11.sighting-proxy", f"{first.items[0][1]} - the library's answer is the one that follows from "
+                            f"its cache entry instead of the multicast sightings ({cause})", cause=cause)
+                continue
+            first = second
+        for clause, detail, sig in first.items:
+            out.add(clause, detail, **sig)
+
+
+class _Sink:
+    def __init__(self):
+        self.items = []
+
+    def add(self, clause, detail, **sig):
+        self.items.append((clause, detail, sig))
+
+
+def _judge(w, expect, ex, by_t, stats, out, alt):
+    """Judge one query against the expected sets - those of the statement's notion of 'seen multicast' (alt=False) or
+    those of the library's notion, its cache entry (alt=True)."""
+    t0 = w.t0
+    count = not alt
+    sets = ex["alt"] if alt else (ex["U"], ex["M"], ex["N"])
+    t = ex["t"]
+    txs = by_t.get(t, [])
+    uni = [tx for tx in txs if not tx.multicast and tx.msg is not None and tx.msg.is_response and tx.dst == ex["src"]]
+    # several legacy queries of one client delivered in the same instant: their replies echo the id, attribute by it
+    same = [e2 for e2 in expect if e2["t"] == t and e2["src"] == ex["src"] and e2["legacy"] and e2["id"] != ex["id"]]
+    if ex["legacy"] and same and any(tx.msg.id == ex["id"] for tx in uni):
+        uni = [tx for tx in uni if tx.msg.id == ex["id"]]
+    elif ex["legacy"] and same:
+        uni = [tx for tx in uni if tx.msg.id not in {e2["id"] for e2 in same}]
+    mc = [tx for tx in txs if tx.multicast and tx.msg is not None and tx.msg.is_response]
+    U, M, N = sets
+    qd = f"query id={ex['id']} {ex['q']} from {ex['src']} at {t - t0:.6f} ({'probe' if ex['probe'] else 'query'})"
+    got_u = {}
+    for tx in uni:
+        for r in tx.msg.answers:
+            got_u[_key(r)] = r
+    wantU = {_key(r): r for r in U.values()}
+    # replies to port-5353 queries carry id 0: when one source has several queries delivered in the same instant the
+    # unicast replies are judged against all of them together
+    for e2 in expect:
+        if e2 is not ex and e2["t"] == t and e2["src"] == ex["src"] and not e2["legacy"] and not ex["legacy"]:
+            wantU.update({_key(r): r for r in (e2["alt"][0] if alt and e2.get("alt") else e2["U"]).values()})
+    optional = {k for k, r in wantU.items() if r.type == wire.T_NSEC}
+    if wantU or got_u:
+        stats["answered"] += int(count)
+    missing = [r for k, r in wantU.items() if k not in got_u and k not in optional]
+    extra = [r for k, r in got_u.items() if k not in wantU]
+    if missing:
+        out.add("C11.unicast-missing", f"{qd}: expected unicast reply with {missing[:3]}; unicast sent: "
+                f"{[(tx.dst, tx.msg.answers[:3]) for tx in uni]}", legacy=ex["legacy"], probe=ex["probe"])
+    if extra:
+        out.add("C11.unicast-extra", f"{qd}: unicast reply contains {extra[:3]} which should not go by unicast "
+                f"(multicast-now set {list(M.values())[:3]})", legacy=ex["legacy"], probe=ex["probe"])
+    for tx in uni:
+        if tx.sock != ex["sock"]:
+            out.add("C11.unicast-wrong-socket", f"{qd}: received on {ex['sock']} but unicast reply sent from {tx.sock}")
+        if any(r.flush for r in tx.msg.records()):
+            out.add("C11.unicast-flush-bit", f"{qd}: unicast reply carries a cache-flush bit")
+        if ex["legacy"]:
+            if tx.msg.id != ex["id"]:
+                out.add("C11.legacy-id", f"{qd}: legacy unicast reply has id {tx.msg.id}")
+            if [q.key() for q in tx.msg.questions] != [q.key() for q in ex["q"]]:
+                out.add("C11.legacy-questions", f"{qd}: legacy unicast reply echoes {tx.msg.questions}")
+        if (tx.msg.flags & 0x8400) != 0x8400:
+            out.add("C11.unicast-flags", f"{qd}: unicast reply flags {tx.msg.flags:#06x}")
+    got_m = {}
+    for tx in mc:
+        for r in tx.msg.answers:
+            got_m[_key(r)] = r
+    wantM = {_key(r): r for r in M.values() if r.type != wire.T_NSEC}
+    miss_m = [r for k, r in wantM.items() if k not in got_m]
+    if miss_m:
+        out.add("C11.multicast-now-missing", f"{qd}: expected immediate multicast of {miss_m[:3]}; multicast at that "
+                f"instant: {[tx.msg.answers[:3] for tx in mc]}", legacy=ex["legacy"], probe=ex["probe"])
+        pass
+    if M and not ex["legacy"] and any(q.qu for q in ex["q"]):
+        stats["qu_multicast_instead"] += int(count)
+    if N:
+        stats["qu_unicast_only"] += int(count)
+        leaked = [r for k, r in ((_key(r), r) for r in N.values()) if k in got_m and r.type != wire.T_NSEC]
+        if leaked and not _pending_before(expect, ex, leaked):
+            out.add("C11.qu-recent-multicast", f"{qd}: {leaked[:2]} was multicast within a quarter of its TTL and the "
+                    "question was QU, yet it was multicast again at once")
+
+
 
 
 def _pending_before(expect, ex, leaked):
